@@ -5,6 +5,7 @@ import (
 	"go/ast"
 	"go/constant"
 	"go/types"
+	"golang.org/x/tools/go/ssa"
 	"strings"
 
 	"verif/ssvcheck/internal/core"
@@ -169,13 +170,43 @@ func runC01(c *core.Ctx) {
 		{"round-changes-valid-for-proposal-round", "forall(ok(" + iN + "validRoundChangeForData(p0, p1, p2[_], p4, p5, p6)))", "every justifying round change must be valid for the PROPOSAL's height, round and data"},
 		{"round-change-quorum", "T(ssv-spec/qbft.HasQuorum(p0.Share, p2))", "a later-round proposal needs a round-change quorum"},
 	})
-	ensuresIf(c, "C01-R3", ipj, "err=nil", "previously prepared", "T("+iN+"isProposalJustification$1(p2)#0)", []Req{
+	// the "was any round change prepared?" predicate: a closure today; found by its role (called on the
+	// round-change slice, returns (bool, error)) so that turning it into a named helper keeps the rule
+	prepPred, prepCall := "", (*ssa.Function)(nil)
+	if f := fn(c, "C01-R3", ipj); f != nil {
+		a := c.E.Analyze(f)
+		for _, b := range f.Blocks {
+			for _, in := range b.Instrs {
+				cv, ok := in.(*ssa.Call)
+				if !ok || cv.Call.IsInvoke() {
+					continue
+				}
+				callee := cv.Call.StaticCallee()
+				if callee == nil || len(callee.Blocks) == 0 || callee.Pkg != f.Pkg {
+					continue
+				}
+				res := callee.Signature.Results()
+				if res.Len() != 2 || res.At(0).Type().String() != "bool" || res.At(1).Type().String() != "error" || len(cv.Call.Args) != 1 {
+					continue
+				}
+				if a.D.D(cv.Call.Args[0]).String() != "p2" {
+					continue
+				}
+				prepPred, prepCall = a.D.D(cv).String(), callee
+			}
+		}
+	}
+	if prepCall == nil {
+		c.Undischarged("C01-R3", "isProposalJustification|previously-prepared predicate", "no call of a (bool, error) predicate on the round-change messages found")
+		return
+	}
+	ensuresIf(c, "C01-R3", ipj, "err=nil", "previously prepared", "T("+prepPred+"#0)", []Req{
 		{"prepare-quorum", "T(ssv-spec/qbft.HasQuorum(p0.Share, p3))", "re-proposing a prepared value needs its prepare quorum"},
 		{"highest-prepared", "nonnil(" + iN + "highestPrepared(p2)#0)", ""},
 		{"value-is-highest-prepared", "T(bytes.Equal(ssv-spec/qbft.HashDataRoot(p6)#0[:], " + iN + "highestPrepared(p2)#0.Message.Root[:]))", "the proposal must re-propose the highest prepared value"},
 		{"prepares-valid", "forall(ok(" + iN + "validSignedPrepareForHeightRoundAndRoot(p1, p3[_], p4, " + iN + "highestPrepared(p2)#0.Message.DataRound, " + iN + "highestPrepared(p2)#0.Message.Root, p0.Share.Committee)))", "each prepare must be for the highest prepared round and root"},
 	})
-	ensures(c, "C01-R3", instPkg+".isProposalJustification$1", "r0=false", []Req{
+	ensuresFn(c, "C01-R3", prepCall, instPkg+".isProposalJustification|prepared-predicate", "r0=false", []Req{
 		{"none-prepared", "forall(F(ssv-spec/qbft.Message.RoundChangePrepared(p0[_].Message)))", "'not previously prepared' must mean no round change carries a prepared value"},
 	})
 
